@@ -8,6 +8,7 @@ for d in seeded/${1:-}*/; do
   id=$(basename "$d")
   prop=$(python3 -c "import json,sys; print(json.load(open('$d/meta.json'))['property'])")
   out=$(tools/try_mutant.sh "$d/patch.diff" "$prop" 2>&1)
+  if echo "$out" | grep -q "PATCH DOES NOT APPLY"; then echo "$id $prop patch-does-not-apply (rebase it onto the current /repo HEAD)"; continue; fi
   case "$id" in R-*)
     # behaviour-preserving refactoring: the check must stay silent
     if echo "$out" | grep -q -- "-> exit 0" && ! echo "$out" | grep -q "^VIOLATION"; then res=silent-as-expected; else res=FALSE-ALARM; fi
